@@ -147,8 +147,12 @@ pub fn run_config(report: &mut Report, c: &Config, verbose: bool) {
     let jitter = get_path(&settings, "adapt_options.step_size_settings.jitter").and_then(|v| v.as_f64());
     let ssw = get_path(&settings, "adapt_options.step_size_window").and_then(|v| v.as_f64()).unwrap_or(0.0);
     let nt = c.num_tune;
-    // from this draw index on the transformation must be frozen (configured start + 1 slack)
-    let frozen_from = ((nt as f64) * (1.0 - ssw)).ceil() as u64 + 1;
+    // from this draw index on adaptation leaves the transformation alone: the same floating point expression as the
+    // strategy uses (flow: floor(num_tune * (1 - window)); others: num_tune - trunc(window * num_tune))
+    let frozen_from = if c.preset.is_flow() { ((nt as f64) * (1.0 - ssw)).floor() as u64 } else { nt.saturating_sub((ssw * nt as f64) as u64) };
+    // one configuration in three forces a divergence (recoverable density error at the first leapfrog) on a draw next
+    // to the end of warmup: num_tune - 1, num_tune or num_tune + 1
+    let forced_divergence_at: Option<u64> = if c.seed % 3 == 0 { Some((nt + (c.seed / 3) % 3).saturating_sub(1)) } else { None };
     let mut last_tid: Option<i64> = None;
     let mut bar_ref: Option<f64> = None;
     let mut n_div = 0u64;
@@ -157,6 +161,10 @@ pub fn run_config(report: &mut Report, c: &Config, verbose: bool) {
     let mut h = Fnv::new();
     h.str(pname).u64(nt);
     for d in 0..total {
+        if forced_divergence_at == Some(d) {
+            let k = dens.evals();
+            dens.log.lock().unwrap().plan.insert(k, crate::dens::Fault::Recoverable);
+        }
         let out = match catch_unwind(AssertUnwindSafe(|| chain.draw())) {
             Ok(Ok(o)) => o,
             Ok(Err(e)) => {
@@ -209,7 +217,8 @@ pub fn run_config(report: &mut Report, c: &Config, verbose: bool) {
             n_updates += 1;
         }
         if d >= frozen_from {
-            if let (Some(a), Some(b)) = (last_tid, tid) {
+            // a change of the index seen at draw d was made by the adaptation after draw d - 1
+            if let (Some(a), Some(b), true) = (last_tid, tid, d > frozen_from) {
                 if a != b {
                     report.violation(
                         format!("C06:{pname}:transformation_changed_in_final_window"),
@@ -218,7 +227,8 @@ pub fn run_config(report: &mut Report, c: &Config, verbose: bool) {
                     );
                 }
             }
-            if upd && d >= frozen_from {
+            // (the event on draw 0 announces the initial transformation, it is not a change)
+            if upd && d >= frozen_from && d > 0 {
                 report.violation(
                     format!("C06:{pname}:transformation_update_event_in_final_window"),
                     format!("draw {d} (num_tune={nt}, frozen from {frozen_from}) carries a transformation_update event"),
@@ -268,7 +278,7 @@ pub fn run_config(report: &mut Report, c: &Config, verbose: bool) {
             }
         }
     }
-    h.u64(n_div.min(3)).u64(n_updates.min(3));
+    h.u64(n_div.min(3)).u64(n_updates.min(3)).u64(forced_divergence_at.is_some() as u64);
     report.nontrivial(h.finish());
     report.count("draws_observed", total);
     report.count("divergent_draws", n_div);
